@@ -725,6 +725,9 @@ var longBundles = []int{0, 127, 128, 129, 198}
 
 const longTotal = 200
 
+// maxPlay: the largest play payload with a one- or two-byte packet id (id + payload <= 2^21 - 1)
+const maxPlay = 1<<21 - 1 - 2
+
 func sizesFor(t int) []int {
 	if t <= 1 {
 		return []int{0, 1, 2, 5000}
@@ -961,11 +964,21 @@ func genConfig(c *engine.Chooser, family string) Config {
 		// compression the frame on the wire is the body plus a dozen bytes, so the frame length sweeps across
 		// the 1->2 byte (127/128) and 2->3 byte (16383/16384) boundaries of the length prefix one byte at a
 		// time; without compression (and below a huge threshold) the plain frame does the same
-		ch := product(4, 2)
+		ch := product(4, 3)
 		cfg.Threshold = []int{-1, 0, 64, 1 << 20}[ch[0]]
 		lo, hi := 88, 144
 		if ch[1] == 1 {
 			lo, hi = 16330, 16400
+		}
+		if ch[1] == 2 {
+			// the largest payloads the protocol allows (id + payload <= 2^21 - 1), incompressible: the frame on the
+			// wire is then LONGER than 2^21 - 1 (zlib adds a few hundred bytes), which a receiver must not mistake
+			// for an oversized packet
+			lo, hi = 0, 0
+			for i, n := range []int{maxPlay - 700, maxPlay - 300, maxPlay} {
+				cfg.S2C = append(cfg.S2C, Pkt{idX, n, 2*i + 1})
+				cfg.C2S = append(cfg.C2S, Pkt{3, n, 2*i + 3})
+			}
 		}
 		for n := lo; n < hi; n++ {
 			cfg.S2C = append(cfg.S2C, Pkt{[]int32{idX, idY}[n%2], n, 2*n + 1})
